@@ -66,13 +66,15 @@ def gen(seed, tier):
         if not kinds:
             continue
         kind = r.choice(kinds)
-        if "overlap" in kinds and r.random() < 0.25:
+        if "overlap" in kinds and r.random() < 0.4:
             kind = r.choice(["overlap", "gap"])      # only targets qualify, so they would be rare otherwise
         fault = {"node": P.names_of(n)[0], "kind": kind}
         if kind == "wrong_dtype_bare" and r.random() < 0.3:
             fault["variant"] = "empty"
-        elif kind == "wrong_dtype_chunk" and r.random() < 0.4:
-            fault["variant"] = "consistent"
+        elif kind == "wrong_dtype_chunk" and r.random() < 0.6:
+            fault["variant"] = r.choice(["consistent", "assigned"])
+        elif kind in ("gap", "overlap") and r.random() < 0.35:
+            fault["variant"] = "empty"
         elif kind == "wrong_data_type" and n["kind"] in ("multi", "multi2") and r.random() < 0.5:
             fault["variant"] = "sibling"
         if kind == "rows_outside":
